@@ -425,7 +425,8 @@ std::vector<PPForm> BuildPushPop() {
 }
 
 struct Tables {
-    u16 nop, cntx_s, cntx_r, reti_true, retic_true;
+    u16 nop, cntx_s, cntx_r, reti_true, retic_true, cmp_b0_b1;
+    u16 retic_cond[16];
     std::vector<PoolIns> pool;
     std::vector<PPForm> pp;
     std::vector<std::pair<std::string, u16>> bankr; // 15 forms
@@ -435,6 +436,9 @@ struct Tables {
         cntx_r = Need("cntx_r", {})[0];   // 0xD390 cntx r
         reti_true = Need("reti", {P<Cond>(0)})[0];   // 0x45C0 reti true
         retic_true = Need("retic", {P<Cond>(0)})[0]; // 0x45D0 retic true
+        cmp_b0_b1 = Need("cmp_b0_b1", {})[0];        // 0xD483 cmp b0, b1 (flags only)
+        for (int c = 0; c < 16; ++c)
+            retic_cond[c] = Need("retic", {P<Cond>(c)})[0]; // 0x45D0 | cond
         pool = BuildPool();
         pp = BuildPushPop();
         bankr.push_back({"all", Need("bankr", {})[0]}); // 0x8CDF bankr
@@ -789,6 +793,12 @@ int main(int argc, char** argv) {
                 r->put(end, rev_op);
                 r->put(vec, cs ? T.retic_true : T.reti_true);
             }
+            // context-switching handlers also come as "<flag-only compare> ; retic <cond>" where cond is chosen to be
+            // TRUE on the handler's own flags (it may well be false on the interrupted program's flags, which the
+            // restore brings back): the return must be taken exactly once, on the flags valid when retic executes
+            const bool cond_handler = cs && g.chance(1, 2);
+            if (cond_handler)
+                A.put(vec, T.cmp_b0_b1);
             progtxt = fmt("@%05x: %s; irq line %u cs=%d during instr %u; handler @%05x; reveal %s", pc0, Hex(w).c_str(), line,
                           (int)cs, k, vec, reveal_name[reveal]);
             std::string kb = fmt("int:%s:%s", line < 3 ? fmt("int%u", line).c_str() : "vint", cs ? "retic" : "reti");
@@ -837,6 +847,23 @@ int main(int argc, char** argv) {
                 else if (w_upper != (cpc == 1 ? hi : lo) || w_lower != (cpc == 1 ? lo : hi))
                     fail(kb + fmt(":entry-stack-words:cpc=%u", cpc), "interrupted pc not pushed in the stated word order",
                          fmt("ra=%05x [sp-1]=%04x [sp-2]=%04x", ra, w_upper, w_lower));
+            }
+            if (cond_handler && !bad) {
+                if (!step(A, kb, "handler compare"))
+                    continue;
+                const auto& hr = A.m.core.regs;
+                std::vector<unsigned> pass;
+                auto add = [&](unsigned c, bool t) {
+                    if (t)
+                        pass.push_back(c);
+                };
+                add(1, hr.fz == 1), add(2, hr.fz == 0), add(3, hr.fz == 0 && hr.fm == 0), add(4, hr.fm == 0), add(5, hr.fm == 1);
+                add(6, hr.fm == 1 || hr.fz == 1), add(7, hr.fn == 0), add(8, hr.fc0 == 1), add(9, hr.fv == 1), add(10, hr.fe == 1);
+                add(11, hr.flm == 1 || hr.fvl == 1);
+                unsigned c = pass[g.below(pass.size())];
+                A.put(vec + 1, T.retic_cond[c]);
+                ctx.count("int_conditional_retic");
+                kb += ":cond";
             }
             if (bad || !step(A, kb, "handler"))
                 continue;
